@@ -220,6 +220,26 @@ func runAmmo(res *vkit.Result, c Case, final bool, watchdog time.Duration) strin
 			res.Count("truncations_judged_for_rejection", 1)
 		}
 	}
+	// "never alters how well-formed entries before it are delivered": what a consumer gets of the
+	// entries in front of the malformed one must not depend on how quickly it comes for them. The
+	// same file is given to a second provider whose only consumer arrives once Run has failed (or
+	// sits blocked on its full queue): it must be handed as many entries as the prompt consumer was.
+	if dr.RunErr != nil && !dr.Cancelled && !dr.EndedByConsumers && len(dr.Items) > 0 && !strings.Contains(c.Mut, "unbounded") {
+		var p2 core.Provider
+		var err2 error
+		if pv := catch(func() { p2, err2 = vkit.NewProvider(conf) }); pv == "" && err2 == nil {
+			late := vkit.DrainLate(p2, 200, watchdog, 60*time.Millisecond)
+			if late.Panic == "" && late.Hang == "" && !late.Cancelled && !late.EndedByConsumers {
+				if late.RunErr == nil {
+					res.Violate(key("late-consumer/no-error"), fmt.Sprintf("with a prompt consumer the provider failed (%v); with a consumer that arrives late it ended without an error", dr.RunErr), c)
+				} else if len(late.Items) != len(dr.Items) {
+					res.Violate(key("late-consumer/prefix-lost"), fmt.Sprintf("%d entries precede the malformed one and reach a prompt consumer; a consumer that arrives after the provider has met the malformed entry is handed %d of them (provider error: %v)", len(dr.Items), len(late.Items), late.RunErr), c)
+				}
+				res.Count("late_consumer_runs", 1)
+				res.Count("late_consumer_entries", int64(len(late.Items)))
+			}
+		}
+	}
 	// well-formed entries before the corruption must come out unchanged
 	if c.Format != "grpcjson" && c.Aux != "" {
 		var model []vkit.Expect
